@@ -13,7 +13,8 @@ from vf.models import fdflow
 PROP = "C15"
 RULE = ("histories of 8..30 steps on a fresh ASan bus (LeakSanitizer on) with random max_message_unix_fds (1..16), "
         "max_incoming_unix_fds, pending_fd_timeout (default or 300..500 ms), max_message_size (default or 1..4 KiB) and a "
-        "policy with <deny send_destination=... min_fds=.../> rules; 2..4 raw clients that did / did not negotiate "
+        "policy with <deny send_destination=... min_fds=.../> rules and a receive-side <deny receive_interface=... min_fds=\"1\"/> rule "
+        "(about one message in eight uses that interface: allowed to be sent, refused by every recipient when it carries a descriptor); 2..4 raw clients that did / did not negotiate "
         "descriptor passing, some owning well-known names, some holding a broadcast match rule. Steps: method calls "
         "(with and without reply expected; the callee answers with descriptors too), unicast and broadcast signals, "
         "calls to the bus driver, each with 0..max+2 freshly created descriptors (temp files with a set offset, pipe "
@@ -38,6 +39,7 @@ NAME_PLAIN = b"com.example.Fd1"
 NAME_NOFDS = b"com.example.NoFds"
 NAME_MAXTWO = b"com.example.MaxTwo"
 NAME_MISSING = b"com.example.Missing"
+RX_IFACE = b"com.example.RxNoFds"
 DENY = {NAME_NOFDS: 1, NAME_MAXTWO: 3}
 FILLER_MSGS = 8
 FILLER_BYTES = 65536
@@ -51,6 +53,7 @@ POLICY = """
     <allow user="*"/>
     <deny send_destination="com.example.NoFds" min_fds="1"/>
     <deny send_destination="com.example.MaxTwo" min_fds="3"/>
+    <deny receive_interface="com.example.RxNoFds" min_fds="1"/>
   </policy>
 """
 
@@ -182,6 +185,7 @@ class History(object):
                 m.names.add(nm)
         if rng.random() < 0.6:
             c.bus_call(b"AddMatch", b"s", [MATCH])
+            c.bus_call(b"AddMatch", b"s", [MATCH.replace(SIG_IFACE, RX_IFACE)])
             m.match = True
         c.barrier()
         c.take_inbox()
@@ -481,7 +485,9 @@ class History(object):
             out = fdflow.Outcome("ambiguous")
         else:
             out = self.model.route(ms, spec.mtype, spec.dest, spec.h, size, bool(spec.malformed),
-                                   requested_reply=(spec.mtype == 2))
+                                   requested_reply=(spec.mtype == 2), rx_denied=(spec.iface == RX_IFACE))
+            if spec.iface == RX_IFACE:
+                self.part.count("receive-denied-interface:%s:%s" % ("with-fds" if spec.h else "without-fds", out.cls))
         ambiguous = out.kind == "ambiguous" or spec.then_close
         # With a short pending_fd_timeout a sender that now has unclaimed descriptors at the bus may be dropped at any
         # moment from now on (how long our own barriers take is not under our control): both outcomes are accepted.
@@ -751,6 +757,9 @@ class History(object):
             spec.mtype = 4 if kind == "signal" else 1
             spec.flags = 1 if kind == "call-noreply" else 0
             spec.dest, spec.dest_class = self.pick_dest(S, h)
+        if kind != "driver" and rng.random() < 0.12:
+            # allowed by every send rule, refused by every recipient's receive rules when it carries a descriptor
+            spec.iface = RX_IFACE
         pl = rng.random()
         if a and pl < 0.1:
             spec.placement = "late"
@@ -1337,6 +1346,8 @@ def run(tier, seed, replay=None, scale=1.0):
                   "outcome:recipient-closing", "outcome:truncated-then-close", "refusal-error-seen", "surplus-keepalive-enforced",
                   "surplus-keepalive-messages"):
             r.require(k, 1)
+        r.require("receive-denied-interface:with-fds:refuse:policy", 40)
+        r.require("receive-denied-interface:with-fds:broadcast", 10)
         r.require("descriptors-compared", 200)
         r.require("fd-table-checks-with-descriptors-held", 5)
     r.require("deliveries-compared", 10)
